@@ -125,3 +125,65 @@ def raise_in_loop(xs):
         if x == 0:
             raise ValueError('zero')
     return True
+
+
+def first_then_rest(xs):
+    it = iter(xs)
+    first = next(it, None)
+    return first, all(x == first for x in it)
+
+
+def skipped_loop(xs, flag):
+    total = 0
+    if flag:
+        for x in xs:
+            total += 1
+    count = 0
+    for x in xs:
+        if x > 0:
+            count += 1
+    return total, count
+
+
+def inverse_map(pairs):
+    return {v: k for k, v in pairs}
+
+
+def positives(xs):
+    return {x for x in xs if x > 0}
+
+
+def keys_minus(d, s):
+    return d.keys() - s
+
+
+def count_seps(tokens):
+    n = tokens.count('--')
+    if n > 1:
+        raise ValueError('too many')
+    return n
+
+
+def mod_pos(a, b):
+    if b <= 0:
+        return -1
+    return (a % b) + (a // b) * b
+
+
+def for_else_search(xs, t):
+    for x in xs:
+        if x == t:
+            break
+    else:
+        found = 0
+        for x in xs:
+            found += 0
+        return -1
+    return 1
+
+
+def empty_set_truth(xs):
+    s = set(xs)
+    if not s:
+        return 0
+    return 1
